@@ -1031,8 +1031,20 @@ func (i *interpreter) assert(c value, id string) {
 		return
 	}
 	t := termOf(c)
+	if t.isConst() {
+		if t.Val == 0 {
+			i.recordViolation(id, "assertion "+id+" is false on this path", nil)
+			i.afterViolation()
+		}
+		return
+	}
 	p.nontrivial = true
 	i.assertsSymbolic++
+	if ct, cf, ok := p.evalOverDomain(t); ok && ct && !cf {
+		// a finite input with an exact domain: true for every value, no query needed
+		i.addPC(t)
+		return
+	}
 	neg := tNot(t)
 	i.activate(neg)
 	res, model := i.solver.Check([]*Term{neg}, p.vars)
